@@ -206,7 +206,7 @@ func e2Session(args []string) int {
 				ctl.mark("ACK %d ok", opIdx)
 			}
 			opIdx++
-			if !bigNow && r.Intn(30) == 0 {
+			if !bigNow && !bigSyncNow && r.Intn(30) == 0 {
 				_ = db.VerifForceRotate() // (big sessions rotate by memstore size only, so that the 4 MiB WAL buffer wraps)
 			}
 			if r.Intn(12) == 0 {
@@ -839,6 +839,9 @@ func e2RunSession(c *fw.Case, cfg e2Config) *e2Summary {
 		}
 		if (cfg.mode == "async" || cfg.bigSync) && e2NewestWalIsCut(rp) {
 			sum.cutWal++
+			if os.Getenv("VERIF_E2_DEBUG") != "" {
+				fmt.Fprintf(os.Stderr, "cut-wal image #%d after %s %s: %v\n", ev.Seq, ev.Call, ev.Path, rp.Listing())
+			}
 		}
 		imgNo++
 		d := filepath.Join(work, fmt.Sprintf("img-%d", imgNo))
